@@ -580,7 +580,8 @@ void run_so2(FILE * f, Rng & r, int n)
   }
   // constructors: unnormalised inputs, norms 1e-3..1e3, all sign patterns, zeros in one slot
   for (int i = 0; i < 12 * n; ++i) {
-    const double nrm = (i % 4 == 0) ? 1.0 : r.logu(1e-3, 1e3);
+    // norms: 1, moderate 1e-3..1e3, and far from 1 on both sides (squares stay inside the float range)
+    const double nrm = (i % 4 == 0) ? 1.0 : (i % 8 == 1 ? r.logu(1e-15, 1e-3) : (i % 8 == 5 ? r.logu(1e3, 1e15) : r.logu(1e-3, 1e3)));
     const double a   = (i % 6 == 5) ? (M_PI / 2) * r.below(4) : r.uni(-M_PI, M_PI);
     S qz = S(nrm * std::sin(a)), qw = S(nrm * std::cos(a));
     const char * tag = "unnormalised";
@@ -626,7 +627,7 @@ void run_so3(FILE * f, Rng & r, int n)
     if (q.norm() < 1e-3) q(0) = 1;
     q.normalize();
     const char * tag = q(3) < 0 ? "negative_w" : "positive_w";
-    const double nrm = (i % 5 == 0) ? 1.0 : r.logu(1e-3, 1e3);
+    const double nrm = (i % 5 == 0) ? 1.0 : (i % 10 == 1 ? r.logu(1e-15, 1e-3) : (i % 10 == 7 ? r.logu(1e3, 1e15) : r.logu(1e-3, 1e3)));
     q *= nrm;
     if (i % 12 == 3) { q(3) = 0.0; tag = "zero_w"; }
     if (i % 12 == 9) { q(3) = -0.0; tag = "zero_w"; }
